@@ -12,7 +12,7 @@ Definition legacy_json_helper := Legacy.JsonLegacy.json_helper.
 Extraction "model.ml"
   hdr take verdicts chain_of walk tree0 nodes err_node default_limit obs_of
   parse legacy_parse json_helper legacy_json_helper queries_of tokens maxrec
-  ndjson drop_last_line scan_lines
+  ndjson drop_last_line scan_lines sv_model csv_records
   from_bom from_plain latin ascii utf8_valid full_rune boms text_chars tc_T tc_I
   detect_reader_read reader_consumed
   from_meta_element xml_encoding html_prescan from_html lower_bytes
